@@ -54,6 +54,7 @@ type Frame struct {
 	defers   []*ssa.Defer
 	panicking *Val // in-flight panic value while running defers
 	recovered bool
+	k cont // continuation receiving the normal returns of this frame
 }
 
 func (f *Frame) clone() *Frame {
@@ -102,6 +103,8 @@ type State struct {
 	dirty map[string]bool // objects whose invariant this path has (possibly) broken
 	escaped map[string]bool // fresh objects stored somewhere
 	freshArrays []arrRec   // backing arrays allocated by this function
+	exceptFns []func(string) bool // for "?except" entries of wildHavoc: keys these functions accept were NOT havocked
+	wildHavoc []string // key patterns havocked while those keys were not materialised yet
 	navOwner map[string]string // navigator value (term) -> the query value (term) whose Select produced it
 }
 
@@ -143,6 +146,8 @@ func (s *State) clone() *State {
 	}
 	n.allocTypes = append([]allocRec(nil), s.allocTypes...)
 	n.freshArrays = append([]arrRec(nil), s.freshArrays...)
+	n.wildHavoc = append([]string(nil), s.wildHavoc...)
+	n.exceptFns = append([]func(string) bool(nil), s.exceptFns...)
 	n.navOwner = make(map[string]string, len(s.navOwner))
 	for k, v := range s.navOwner {
 		n.navOwner[k] = v
